@@ -215,9 +215,13 @@ class Advertiser(Entity):
 
     def start_events(self) -> list[Event]:
         """Generate the initial evaluation event."""
+        # One interval after "now" (the simulation's start when scheduled before the
+        # run), not after the epoch: with a non-zero start_time an epoch-relative
+        # stamp lies in the past and the engine discards the evaluation.
+        start = self._clock.now if self._clock is not None else Instant.Epoch
         return [
             Event(
-                time=Instant.from_seconds(self.evaluation_interval),
+                time=start + self.evaluation_interval,
                 event_type="EvaluateCampaigns",
                 target=self,
             )
